@@ -968,6 +968,9 @@ class Models:
             raise Unsupported("callback arity")
         res = APP[n](f, *args)
         out = []
+        st = st.fork()
+        st.ghost = dict(st.ghost)
+        st.ghost["calls"] = st.ghost.get("calls", ()) + ((f, tuple(args)),)      # ghost: callback invocation log
         ok = st.fork()
         rz = APP_RAISES[n](f, *args)
         ok.assume(z3.Not(rz))
